@@ -124,7 +124,8 @@ HOOKS = {
             cut("(1 <= m && m <= 12 && 1 <= d && d <= 31 && d <= DIM(LEAPI(%s), m) && %s && ORDI(%s, m, (int)(d)) == %s)" % (E, EB(-1300, 2100), E, RHS), "ghost cut C: final state in the small frame") + "\n" +
             "REVEAL_NDAY_PRE(y, g_m0, g_d0, g_cd0);\n" +
             "USE(lemma_nday_lift_REQ(y, g_m0, g_d0, g_cd0, g_qc, g_qd, g_rc, g_rd, ey, oey, m, d, WRAP_RY(y, ey, oey)), lemma_nday_lift_ENS(y, g_m0, g_d0, g_cd0, g_qc, g_qd, g_rc, g_rd, ey, oey, m, d, WRAP_RY(y, ey, oey)), \"nday_lift\");\n" +
-            cut("(NDAY_POST_DEF(WRAP_RY(y, ey, oey), m, d, y, g_m0, g_d0, g_cd0) && y + (ey - oey) == WRAP_RY(y, ey, oey))", "ghost cut D: the postcondition holds for the value about to be returned") + "\n" +
+            "REVEAL_DAYORD(WRAP_RY(y, ey, oey), m, d);\nREVEAL_DAYORD(y, g_m0, 1);\nREVEAL_VALIDD(WRAP_RY(y, ey, oey), m, d);\n" +
+            cut("(VALIDD(WRAP_RY(y, ey, oey), m, d) && DAYORD(WRAP_RY(y, ey, oey), m, d) == DAYORD(y, g_m0, 1) + (Z)g_d0 - 1 + (Z)g_cd0 && y + (ey - oey) == WRAP_RY(y, ey, oey))", "ghost cut D: the postcondition holds for the value about to be returned") + "\n" +
             cut("((g_cd0 == 0 && 1 <= g_d0 && g_d0 <= 28) ? (ey == oey && m == g_m0 && d == g_d0) : 1)", "ghost cut E: already normalised input is returned unchanged")),
     ],
 }
@@ -173,3 +174,32 @@ HOOKS['prev_weekday'] = [
 
 HOOKS['is_leap_year'] = [(r'return y % 4 == 0', "REVEAL_IDX400(y);\nREVEAL_LEAPI(IDX400(y));\nUSE(lemma_I_anchor_REQ(IDX400(y), 1, 1), lemma_I_anchor_ENS(IDX400(y), 1, 1), \"I_anchor(idx)\");")]
 HOOKS['year_index'] = [(r'return yi < 0', "REVEAL_IDX400(y + (m > 2));")]
+
+
+# --- the carry chain above n_day ------------------------------------------------------------------------
+GHOST['n_mon'] = {0: "const year_t g_y0 = y;\nconst diff_t g_mm0 = m;\nREVEAL_NMON_PRE(g_y0, g_mm0, d, (Z)cd);"}
+HOOKS['n_mon'] = [
+    (r'return n_day \(',
+     cut("((Z)y == NMON_Y1(g_y0, g_mm0) && (int)m == NMON_M1(g_mm0))", "ghost cut: month carried into the year") + "\n" +
+     "USE(lemma_cong2_REQ(y, NMON_Y1(g_y0, g_mm0), (int)m, NMON_M1(g_mm0), 1), lemma_cong2_ENS(y, NMON_Y1(g_y0, g_mm0), (int)m, NMON_M1(g_mm0), 1), \"cong2\");\n" +
+     "REVEAL_MONBASE(g_y0, g_mm0);\nREVEAL_DAYORD(y, (int)m, 1);\nREVEAL_NDAY_PRE(y, (int)m, d, cd);\n" +
+     cut("(NDAY_PRE(y, (int)m, d, cd) && DAYORD(y, (int)m, 1) == MONBASE(g_y0, g_mm0))", "ghost cut: n_day may be called; its base day is the month base")),
+]
+GHOST['n_hour'] = {0: "const diff_t g_cd0 = cd;\nconst diff_t g_hh0 = hh;\n" + use('carry', ['hh'])}
+HOOKS['n_hour'] = [
+    (r'return n_mon \(', cut("((Z)cd == (Z)g_cd0 + FD24((Z)g_hh0) && (Z)hh == FM24((Z)g_hh0))", "ghost cut: hours carried into days")),
+]
+GHOST['n_min'] = {0: "const diff_t g_ch0 = ch;\nconst diff_t g_mm0 = mm;\n" + use('carry', ['mm'])}
+HOOKS['n_min'] = [
+    (r'return n_hour \(', cut("((Z)ch == (Z)g_ch0 + FD60((Z)g_mm0) && (Z)mm == FM60((Z)g_mm0))", "ghost cut: minutes carried into hours") + "\n" +
+     use('split2', ['hh', 'ch'])),
+]
+GHOST['n_sec'] = {0: "const diff_t g_ss0 = ss;\n" + use('carry', ['ss']) + "\n" +
+                   use('dm_small', ['ss']) + "\n" + use('dm_small', ['mm']) + "\n" + use('dm_small', ['hh']) + "\n" + use('split1', ['mm']) + "\n" + use('split1', ['hh'])}
+HOOKS['n_sec'] = [
+    (r'return fields \( y , nm , nd', use('valid28', ['y', '(int)nm', '(int)nd'])),
+    (r'return n_min \( y , m , d , hh , mm / 60 \+ cm / 60', cut("((Z)cm == FD60((Z)g_ss0) && (Z)ss == FM60((Z)g_ss0))", "ghost cut: seconds carried into minutes") + "\n" +
+     use('split2', ['mm', 'cm'])),
+]
+HOOKS['align_month'] = [(r'return fields', "USE(lemma_ordbound_REQ(f.y, f.m, 1), lemma_ordbound_ENS(f.y, f.m, 1), \"ordbound\");\nREVEAL_DAYORD(f.y, f.m, 1);\nREVEAL_DAYORD(f.y, f.m, f.d);\nREVEAL_VALIDD(f.y, f.m, f.d);\nREVEAL_VALIDD(f.y, f.m, 1);")]
+HOOKS['align_year'] = [(r'return fields', "USE(lemma_ordbound_REQ(f.y, 1, 1), lemma_ordbound_ENS(f.y, 1, 1), \"ordbound\");\nUSE(lemma_ordbound_REQ(f.y, f.m, f.d), lemma_ordbound_ENS(f.y, f.m, f.d), \"ordbound\");\nREVEAL_DAYORD(f.y, 1, 1);\nREVEAL_DAYORD(f.y, f.m, f.d);\nREVEAL_VALIDD(f.y, f.m, f.d);\nREVEAL_VALIDD(f.y, 1, 1);")]
